@@ -184,6 +184,11 @@ def _kernel_elt_term(s, v, xs, op, second, other_terms, date_kernel: bool) -> Op
             guarded.append(p[2])
         else:
             return f"None guard `{s.sh(test, 60)}` is not a disjunction of `<operand> is None` tests"
+    from ..symx import flatten_conds
+    typed = {t[2][0] for t, pol in flatten_conds(s.ev.conds)
+             if pol and t[0] == "call" and t[1] == ("name", "isinstance") and len(t[2]) == 2}
+    # a test of the scalar operand that the path has already typed (isinstance(other, str)) can never hold: harmless
+    guarded = [g for g in guarded if not (g not in xs and g in typed)]
     if sorted(map(repr, guarded)) != sorted(map(repr, xs)):
         return f"None guard covers {[s.sh(g, 20) for g in guarded]}, the operands that can be None are {[s.sh(x, 20) for x in xs]}"
     if not (b[0] == "call" and b[1] == ("name", "bool") and len(b[2]) == 1):
